@@ -585,10 +585,21 @@ theorem feAppend_beginCalled {B : Nat} {f : Front} {data : Bytes} {f' : Front} {
   rw [hb, hx] at this
   cases this
 
+/-- the optional `sync` while the file is open -/
+theorem maybeSync_ok {P : Params} (hP : P.ans = serialAns) (hc : CodecOk P.codec) (hB : P.B < 2 ^ 24) (sy : Bool)
+    {s : Proc} {g : Ghost} {W : WSt} (h : PInv P s g 0 W) :
+    ∃ s' g' W', (if sy then sync P s else .ok s) = .ok s' ∧ PInv P s' g' 0 W' ∧ Frame s s' g g' := by
+  cases sy with
+  | false => exact ⟨s, g, W, rfl, h, Frame.refl s g⟩
+  | true =>
+    obtain ⟨s', g', W', hs, h', fr, _⟩ := sync_ok hP hc hB h
+    exact ⟨s', g', W', by simpa using hs, h', fr⟩
+
 theorem packFile_ok {P : Params} (hP : P.ans = serialAns) (hc : CodecOk P.codec) (hB : P.B < 2 ^ 24) (hBpos : 0 < P.B)
     {s : Proc} {g : Ghost} {W : WSt} (h : PInv P s g 0 W) (hfe : FrontInv P.B s.fe g.front s.w.inodes.length)
-    (hidle : s.beginCalled = false) (hfin : g.fin = false) (f : InFile) (hfl : f.flags &&& blkUserSettable = f.flags) :
-    ∃ s' g' W' items, packFile P s f = .ok s' ∧ feFile P.B s.w.inodes.length f = .ok items ∧
+    (hidle : s.beginCalled = false) (hfin : g.fin = false) (f : InFile) (hfl : f.flags &&& blkUserSettable = f.flags)
+    (sy : Bool) :
+    ∃ s' g' W' items, packFile P s f sy = .ok s' ∧ feFile P.B s.w.inodes.length f = .ok items ∧
       g'.front = g.front ++ items ∧
       g'.fe = g.fe ++ (if f.data.length = 0 then [] else [⟨s.w.inodes.length, .size f.data.length⟩]) ∧
       PInv P s' g' 0 W' ∧ FrontInv P.B s'.fe g'.front s'.w.inodes.length ∧ s'.beginCalled = false ∧ g'.fin = false ∧
@@ -611,13 +622,25 @@ theorem packFile_ok {P : Params} (hP : P.ans = serialAns) (hc : CodecOk P.codec)
   simp only
   by_cases hd0 : f.data.length = 0
   · rw [if_pos hd0, if_pos hd0]
-    obtain ⟨s', g', W', he, hinv', hfe', hfend, hfront, hgfe, hgfin, hil, hmb⟩ := endFile_ok hP hc hB h1 hfe1 hbc1 hfin
-      (fun c hc' => by rw [hcur1] at hc'; cases hc')
-    refine ⟨s', g', W', _, he, rfl, ?_, ?_, hinv', hfe', ?_, hgfin, hil.trans hil1, hmb.trans hmb1⟩
-    · rw [hfront, hf0]
-    · rw [hgfe]; simp [hd0]
+    obtain ⟨sy1, gy1, Wy1, hsy, hy1, fry⟩ := maybeSync_ok hP hc hB sy h1
+    simp only
+    rw [hsy]
+    simp only
+    have hfey : FrontInv P.B sy1.fe gy1.front sy1.w.inodes.length := by rw [fry.fe, fry.front, fry.inodes]; exact hfe1
+    have hbcy : sy1.beginCalled = true := by
+      have : sy1.fe.beginCalled = true := by rw [fry.fe]; exact hbc1
+      exact this
+    have hcury : sy1.blkCurrent = none := by rw [blkCurrent_of_fe fry.fe]; exact hcur1
+    have hfiny : gy1.fin = false := by rw [fry.fin]; exact hfin
+    obtain ⟨s', g', W', he, hinv', hfe', hfend, hfront, hgfe, hgfin, hil, hmb⟩ := endFile_ok hP hc hB hy1 hfey hbcy hfiny
+      (fun c hc' => by rw [hcury] at hc'; cases hc')
+    refine ⟨s', g', W', _, he, rfl, ?_, ?_, hinv', hfe', ?_, hgfin, ?_, ?_⟩
+    · rw [hfront, fry.front, fry.fe, hf0]
+    · rw [hgfe, fry.gfe]; simp [hd0]
     · have : s'.fe.beginCalled = false := by rw [hfend]; rfl
       exact this
+    · rw [hil, fry.inodes, hil1]
+    · rw [hmb, fry.maxBacklog, hmb1]
   · rw [if_neg hd0, if_neg hd0]
     have hdne : f.data ≠ [] := fun he => hd0 (by simp [he])
     obtain ⟨s2, g2, W2, em, id, ha, hfa, hino, hidl, hfront2, hgfe2, hinv2, hfe2, hgfin2, hil2, hmb2, hcne2⟩ :=
@@ -637,14 +660,24 @@ theorem packFile_ok {P : Params} (hP : P.ans = serialAns) (hc : CodecOk P.codec)
           simpa using hx
         -- `append` never ends a file: the front end mirror keeps `begin_called`
         exact feAppend_beginCalled hfa (by rfl) hx'
-    obtain ⟨s', g', W', he, hinv', hfe', hfend, hfront, hgfe, hgfin, hil, hmb⟩ := endFile_ok hP hc hB hinv2 hfe2 hbc2 hgfin2 hcne2
+    obtain ⟨sy1, gy1, Wy1, hsy, hy1, fry⟩ := maybeSync_ok hP hc hB sy hinv2
+    rw [hsy]
+    simp only
+    have hfey : FrontInv P.B sy1.fe gy1.front sy1.w.inodes.length := by rw [fry.fe, fry.front, fry.inodes]; exact hfe2
+    have hbcy : sy1.beginCalled = true := by
+      have : sy1.fe.beginCalled = true := by rw [fry.fe]; exact hbc2
+      exact this
+    have hfiny : gy1.fin = false := by rw [fry.fin]; exact hgfin2
+    have hcney : ∀ c, sy1.blkCurrent = some c → c.data ≠ [] := by
+      intro c hc'; rw [blkCurrent_of_fe fry.fe] at hc'; exact hcne2 c hc'
+    obtain ⟨s', g', W', he, hinv', hfe', hfend, hfront, hgfe, hgfin, hil, hmb⟩ := endFile_ok hP hc hB hy1 hfey hbcy hfiny hcney
     have hidn : id = s.w.inodes.length := by omega
     refine ⟨s', g', W', _, he, rfl, ?_, ?_, hinv', hfe', ?_, hgfin, ?_, ?_⟩
-    · rw [hfront, hfront2, List.append_assoc]
-    · rw [hgfe, hgfe2, hidn]; simp [hd0]
+    · rw [hfront, fry.front, fry.fe, hfront2, List.append_assoc]
+    · rw [hgfe, fry.gfe, hgfe2, hidn]; simp [hd0]
     · have : s'.fe.beginCalled = false := by rw [hfend]; rfl
       exact this
-    · rw [hil, hil2, hil1]
-    · rw [hmb, hmb2, hmb1]
+    · rw [hil, fry.inodes, hil2, hil1]
+    · rw [hmb, fry.maxBacklog, hmb2, hmb1]
 
 end Sqfs.BlockProc
